@@ -2,6 +2,7 @@ package base
 
 import (
 	"encoding/binary"
+	"strings"
 
 	"github.com/relex/gotils/promexporter/promext"
 	"github.com/relex/gotils/promexporter/promreg"
@@ -125,6 +126,9 @@ func (pcounter *LogProcessCounterSet) SelectMetricKeySet(record *LogRecord) *Log
 	if !found {
 		// copy transient field values from record for storing into map and counters
 		permKeys := util.DeepCopyStrings(tempKeys)
+		for i, key := range permKeys {
+			permKeys[i] = strings.ToValidUTF8(key, "\uFFFD") // invalid label values would be rejected by Prometheus with panic
+		}
 		permMergedKey := util.DeepCopyStringFromBytes(tempMergedKey)
 		customCounters := make([]*logCustomCounterImpl, len(pcounter.customCounterVecMap))
 		for _, vec := range pcounter.customCounterVecMap {
